@@ -127,6 +127,7 @@ func outerBody(sc scenario, rec *recorder, judged *bool) {
 	all.Add(1)
 	go func() { defer all.Done(); oc.Run(runCtx) }()
 
+	atRest := map[int]bool{}      // written by the script goroutine before the call's goroutine is started
 	readers := map[int]*oreader{} // guarded by rec.mu
 	parents := map[int]context.CancelFunc{}
 	var pmu sync.Mutex
@@ -159,7 +160,9 @@ func outerBody(sc scenario, rec *recorder, judged *bool) {
 		}
 		calling.Store(g, true)
 		// pre: the caller's context has already ended (precancelled, or a parent cancel that overtook the call)
-		rec.ev("acq_call", tv.M{"g": g, "key": 0, "mode": "r", "pre": pctx.Err() != nil, "now": now()})
+		rec.mu.Lock() // together with the script's cancel step: the cancel is either logged before (then pre) or after this call
+		rec.evLocked("acq_call", tv.M{"g": g, "key": 0, "mode": "r", "pre": pctx.Err() != nil, "now": now(), "atrest": atRest[g]})
+		rec.mu.Unlock()
 		rctx, cancel, err := oc.RLock(pctx)
 		calling.Delete(g)
 		rec.mu.Lock()
@@ -211,7 +214,7 @@ func outerBody(sc scenario, rec *recorder, judged *bool) {
 		defer all.Done()
 		g := st.G
 		calling.Store(g, true)
-		rec.ev("acq_call", tv.M{"g": g, "key": 0, "mode": "w", "pre": false, "now": now()})
+		rec.ev("acq_call", tv.M{"g": g, "key": 0, "mode": "w", "pre": false, "now": now(), "atrest": atRest[g]})
 		unlock := oc.Lock()
 		calling.Delete(g)
 		rec.mu.Lock()
@@ -229,7 +232,13 @@ func outerBody(sc scenario, rec *recorder, judged *bool) {
 	}
 
 	total := 0
+	prevWaited := true
 	for _, st := range sc.Script {
+		// a call is issued "at rest" when the bubble was at rest before it and comes to rest again before the next step
+		if st.Op == "rlock" || st.Op == "lock" {
+			atRest[st.G] = prevWaited && !st.NoWait
+		}
+		prevWaited = !st.NoWait
 		switch st.Op {
 		case "rlock":
 			all.Add(1)
@@ -253,8 +262,10 @@ func outerBody(sc scenario, rec *recorder, judged *bool) {
 			pc := parents[st.G]
 			pmu.Unlock()
 			if pc != nil {
-				rec.ev("cancel", tv.M{"g": st.G})
+				rec.mu.Lock()
+				rec.evLocked("cancel", tv.M{"g": st.G})
 				pc()
+				rec.mu.Unlock()
 			}
 		case "shutdown":
 			rec.ev("shutdown", nil)
@@ -262,6 +273,7 @@ func outerBody(sc scenario, rec *recorder, judged *bool) {
 		}
 		if !st.NoWait {
 			synctest.Wait()
+			rec.ev("settled", tv.M{"now": now()})
 		}
 	}
 	// let everything run out: every grace period and every hold, several times over
